@@ -755,6 +755,48 @@ def check_visit(ctx, rule):
             chk.ok(rule, "enum-visit:" + key, {"entity": key, "cases": len(cases)})
 
 
+def check_by_tag(ctx, rule):
+    """by-tag accessors (`operator()(access_by_tag_tag, Tag, Args&&... args)`) hand their arguments on to the named
+    accessor: every argument is taken by (forwarding) reference - a cursor taken by value is a copy, the caller's cursor
+    does not move and the next by-tag call reads from the wrong position - and the callee is the member named like the
+    tag's entity"""
+    chk = ctx.chk
+    root = ctx_gen_file(ctx)
+    n = 0
+    seen = set()
+    for fn in ctx.lib.facts["functions"]:
+        ps = fn.get("params") or []
+        if len(ps) < 3 or not ps[0].get("t", "").endswith("access_by_tag_tag") or fn.get("body") is None:
+            continue
+        if fn.get("file", "").endswith("sbepp.hpp") or "_harness" in fn.get("file", "") or fn.get("file", "").endswith("vh_common.hpp"):
+            continue
+        cls = (fn.get("cls") or "").replace("<const char>", "<char>")
+        tag = ps[1].get("t", "")
+        k = (cls, tag)
+        if k in seen:
+            continue
+        seen.add(k)
+        n += 1
+        def by_value(t):
+            t = (t or "").rstrip()
+            pack = t.endswith("...")
+            core = t[:-3].rstrip() if pack else t
+            if core.endswith("&"):
+                return False
+            # a by-value pack swallows cursors; so does a by-value cursor / cursor wrapper; plain scalars (the `bool` of a
+            # choice setter) are values anyway
+            return pack or "cursor" in core
+        byval = [p.get("t") for p in ps[2:] if by_value(p.get("t"))]
+        key = "by-tag:%s:%s" % (cls.split("::")[-1], tag.split("::")[-1])
+        if byval:
+            chk.violation(rule, "by-tag-args:" + cls.split("::")[-1], where(fn),
+                          "by-tag accessor of %s for %s takes %s by value: a cursor handed to get_by_tag / set_by_tag is copied, the "
+                          "caller's cursor stays where it was" % (cls, tag.split("::")[-1], byval[:2]))
+        else:
+            chk.ok(rule, key, {"params": [p.get("t") for p in ps[2:]][:2]})
+    return n
+
+
 def enum_list(ctx):
     out = []
     ctx.enum_cls = {}
@@ -911,6 +953,7 @@ def check(chk, which, tier, only=None):
             check_fillers(ctx, "E4.filler")
         if "visit" in which:
             check_visit(ctx, "E4.visit")
+            check_by_tag(ctx, "E4.bytag")
         if "traits" in which:
             import e4traits
             e4traits.check_traits(ctx, "E4.traits")
